@@ -12,6 +12,7 @@ import JunoModel.C01.ProofsLegacyRestart
 import JunoModel.C01.ProofsVersion
 import JunoModel.C01.ProofsStateL
 import JunoModel.C01.ProofsChain
+import JunoModel.C01.ProofsMigrate
 /-!
 C01 — property theorems (statements only; helper lemmas are in `Proofs*.lean`).
 Every theorem in this module is an obligation listed in evidence/C01.json with its axioms.
@@ -493,6 +494,129 @@ example : (match State.run true [State.deploy7] State.St.empty, State.run true [
          ⟨false, State.nonce7, State.commitment true s0, State.commitment false s1⟩]
       (Chain.runStore true true chain State.St.empty).isSome && (Chain.runStore false true chain State.St.empty).isNone
     | _, _ => false) = true := by decide
+
+
+/-! ## Contract records with a CACHED storage root; the head-state migration (round 5)
+
+`StateM` (`ModelMigrate.lean`) is `core/state` with its two stores kept apart, as in the code: the contract record
+(`stateContract`: class hash, nonce and `StorageRoot` — a felt that CACHES the root of the storage trie) in the
+`Contract` bucket, and the storage tries in the node database under the contract's address. `StateM.update` is
+`State.Update`: `stateObject.commit` opens the trie stored under the address, applies the dirty slots, commits,
+writes the root into the record, and `stateContract.commitment()` hashes the record's fields into the leaf.
+`StateM.SimM sm s` says that `sm` represents the state `s` of `ModelState.lean` (same contract / class trie, per
+address the same class hash and nonce and the trie stored under the address, no storage nodes without a record);
+it does NOT constrain the cached roots. `StateM.upgrade legacy native` is the database after the upgrade of a
+legacy node: the `Contract` bucket as `migration/state/headstate` writes it from the per-field layout of
+core/deprecatedstate (`state.WriteContract`: class hash, nonce — and NO storage root), the tries of the same
+state in the trie2 buckets. -/
+
+/-- **The cached storage root of a record is never read before it is recomputed.** Overwrite the `StorageRoot` of
+every contract record by arbitrary values (`restale f`): every history is accepted or rejected as before and
+computes the same roots. -/
+theorem state_root_ignores_cached_storage_roots (purge pre014 : Bool) (ds : List State.Diff) (sm : StateM.StM)
+    (ho : ∀ a, State.alookup sm.recs a = none → sm.nodes a = .nil) (f : Path → StateM.RecM → HTerm) :
+    (StateM.run purge ds (StateM.restale f sm)).map (StateM.commitment pre014) =
+      (StateM.run purge ds sm).map (StateM.commitment pre014) := by
+  have h := StateM.simM_view ho
+  rw [StateM.run_commitment_eq purge pre014 ds _ _ (StateM.simM_restale h f),
+    StateM.run_commitment_eq purge pre014 ds _ _ h]
+
+/-- **`state_commitment_spec` for records in the stale form.** From ANY database that represents a reachable
+state `s` with abstract state `a` — whatever its records' cached storage roots hold (zero after the head-state
+migration, or anything else) — every accepted continuation `ds` ends in a state whose commitment is the protocol
+commitment of `a` with `ds` applied. -/
+theorem state_commitment_spec_stale_records (pre014 : Bool) (ds : List State.Diff)
+    (hd : ∀ d ∈ ds, State.ValidDiff d) (sm sm' : StateM.StM) (s : State.St) (a : State.AbsSt)
+    (hok : Chain.StateOK s a) (hsim : StateM.SimM sm s) (h : StateM.run true ds sm = some sm') :
+    StateM.commitment pre014 sm' = State.absCommitment pre014 (ds.foldl State.absApply a) := by
+  obtain ⟨s', _, hsim', hok', _⟩ :=
+    StateM.run_inv (fun _ => True) (fun _ _ _ _ _ => trivial) ds hd sm sm' s a hok hsim trivial h
+  rw [StateM.commitment_sim hsim', Chain.commitment_ok hok']
+
+/-- **`stateObject.commit` recomputes the cached root of every touched contract.** One accepted block on a database
+with arbitrary cached roots: every contract the diff names (deployed / replaced / nonce / storage) and that still
+has a record afterwards carries, as cached root, the commitment of the storage map its trie holds; every other
+record and storage trie is unchanged. -/
+theorem state_update_backfills_cached_storage_root (purge : Bool) (sm sm' : StateM.StM) (s : State.St) (a0 : State.AbsSt)
+    (d : State.Diff) (hok : Chain.StateOK s a0) (hsim : StateM.SimM sm s) (hd : State.ValidDiff d)
+    (hu : StateM.update purge sm d = some sm') (a : Path) :
+    (StateM.TouchedBy d a → ∀ r, State.alookup sm'.recs a = some r →
+        r.sroot = Spec.root .pedersen 251 (Trie2.get (sm'.nodes a))) ∧
+    (¬ StateM.TouchedBy d a → State.alookup sm'.recs a = State.alookup sm.recs a ∧ sm'.nodes a = sm.nodes a) :=
+  StateM.update_backfills hok.swf hsim hd hu a
+
+/-- On a NATIVELY built database every record's cached root is exact (the commitment of the contract's storage map),
+after any accepted history — so there "cached root zero" does mean "no storage". -/
+theorem native_contract_records_exact (ds : List State.Diff) (hd : ∀ d ∈ ds, State.ValidDiff d) (sm : StateM.StM)
+    (h : StateM.run true ds StateM.StM.empty = some sm) : StateM.Exact sm := by
+  obtain ⟨_, _, _, _, hx⟩ := StateM.run_inv StateM.Exact (fun hs hsim hd hu hp => StateM.update_exact hs hsim hd hu hp)
+    ds hd _ sm _ _ Chain.stateOK_empty StateM.simM_empty
+    (by intro a r hr; simp [StateM.StM.empty, State.alookup] at hr) h
+  exact hx
+
+/-- **After the head-state migration the state root is still the protocol commitment** — although every migrated
+record carries a zero storage root, whether or not its contract has storage. `legacy` is the state the legacy node
+had after `ds1` (here: of a legacy backend that removes emptied system contracts as core/state does — the proposed
+repair of known finding 1; for the unchanged backend see the `_partial` form below), `native` the trie2 database
+of the same history; the upgraded database takes its records from the migrator. Every accepted continuation `ds2`
+computes the commitment of the abstract state of `ds1 ++ ds2`, and every record is then either still in the
+rootless form or carries the exact root. -/
+theorem state_commitment_spec_after_head_state_migration (pre014 : Bool) (ds1 ds2 : List State.Diff)
+    (hd1 : ∀ d ∈ ds1, State.ValidDiff d) (hd2 : ∀ d ∈ ds2, State.ValidDiff d)
+    (legacy : State.St) (native sm' : StateM.StM)
+    (hl : State.run true ds1 State.St.empty = some legacy)
+    (hn : StateM.run true ds1 StateM.StM.empty = some native)
+    (h : StateM.run true ds2 (StateM.upgrade legacy native) = some sm') :
+    StateM.commitment pre014 sm' = State.absCommitment pre014 (State.absState (ds1 ++ ds2)) ∧
+    StateM.ZeroOrExact sm' := by
+  obtain ⟨s1, hs1, hsim1, hok1, _⟩ :=
+    StateM.run_inv (fun _ => True) (fun _ _ _ _ _ => trivial) ds1 hd1 _ native _ _
+      Chain.stateOK_empty StateM.simM_empty trivial hn
+  rw [hl, Option.some.injEq] at hs1
+  subst hs1
+  have hz : StateM.ZeroOrExact (StateM.upgrade legacy native) :=
+    fun a r hr => Or.inl (StateM.upgrade_rootless legacy native a r hr)
+  obtain ⟨s', _, hsim', hok', hx⟩ :=
+    StateM.run_inv StateM.ZeroOrExact (fun hs hsim hd hu hp => StateM.update_zeroOrExact hs hsim hd hu hp)
+      ds2 hd2 _ sm' _ _ hok1 (StateM.simM_upgrade hsim1) hz h
+  refine ⟨?_, hx⟩
+  rw [StateM.commitment_sim hsim', Chain.commitment_ok hok']
+  simp only [State.absState, List.foldl_append]
+
+/-- The same for the legacy backend of the UNCHANGED tree (`State.run false`: an emptied system contract keeps its
+record, known finding 1). Partial: proved for histories in which no system contract is emptied before the upgrade
+(`NoSystemContractEmptied`); without that the migrator also writes a record (class 0, nonce 0) for the emptied
+system contract, which the trie2 database has no leaf for — the harness family `state-migrated-*` runs such
+histories (the root stays right), the simulation argument used here does not cover them. -/
+theorem state_commitment_spec_after_head_state_migration_partial (pre014 : Bool) (ds1 ds2 : List State.Diff)
+    (hd1 : ∀ d ∈ ds1, State.ValidDiff d) (hd2 : ∀ d ∈ ds2, State.ValidDiff d)
+    (hk : State.NoSystemContractEmptied State.AbsSt.empty ds1)
+    (legacy : State.St) (native sm' : StateM.StM)
+    (hl : State.run false ds1 State.St.empty = some legacy)
+    (hn : StateM.run true ds1 StateM.StM.empty = some native)
+    (h : StateM.run true ds2 (StateM.upgrade legacy native) = some sm') :
+    StateM.commitment pre014 sm' = State.absCommitment pre014 (State.absState (ds1 ++ ds2)) ∧
+    StateM.ZeroOrExact sm' :=
+  state_commitment_spec_after_head_state_migration pre014 ds1 ds2 hd1 hd2 legacy native sm'
+    (state_backends_agree_unless_system_contract_emptied pre014 ds1 hd1 hk legacy hl).1 hn h
+
+set_option maxRecDepth 8000 in
+/-- non-vacuity: contract 0x7 is deployed with two storage slots (legacy node and trie2 database), the node is
+upgraded — the migrated record of 0x7 has root zero although its storage is not empty —, then a NONCE-ONLY block:
+accepted, the root is the one the natively built database computes, and it is not the root a leaf hashed from the
+stale record would give -/
+example :
+    (match State.run true [⟨[], [], [(State.slot7, .felt 5)], [], [], [(State.slot7, [(State.addr1, .felt 3), (State.slot7, .felt 4)])]⟩] State.St.empty,
+           StateM.run true [⟨[], [], [(State.slot7, .felt 5)], [], [], [(State.slot7, [(State.addr1, .felt 3), (State.slot7, .felt 4)])]⟩] StateM.StM.empty with
+     | some legacy, some native =>
+       let up := StateM.upgrade legacy native
+       ((State.alookup up.recs State.slot7).map (·.sroot) == some (.felt 0)) &&
+       ((StateM.run true [State.nonce7] up).map (StateM.commitment true) ==
+         (StateM.run true [State.nonce7] native).map (StateM.commitment true)) &&
+       ((StateM.run true [State.nonce7] up).map (StateM.commitment true) !=
+         some (Trie2.hashRoot .pedersen (Trie2.update .nil State.slot7
+           (State.contractLeaf (.felt 5) (.felt 0) (.felt 1)))).1)
+     | _, _ => false) = true := by decide
 
 /-! ## Lead: `Trie.Update` of core/trie2 keeps the caller's value POINTER (round 4)
 
